@@ -94,7 +94,7 @@ printing) is never compared; it is retried or skipped and counted.
 | C03 | lexer probe hook | all strings of length <= 4 over 24 hostile symbols (quick), Unicode category representatives, corpus prefixes: termination within budget, full consumption, token count <= 2n+2 |
 | C04 | process boundary per mode | `--suggest/--hover/--define` with `--row` inside, at, and beyond the file; record grammar per mode |
 | C05 | repeated runs | 13 modes x corpus/generated/tie programs, 3-6 fresh processes each with different GOMAXPROCS/GOGC, byte equality (set equality for `--define`); race build in thorough |
-| C06 | relational (layout) | blank lines, comment lines, trailing comments, final newline, CRLF-free indentation changes at safe boundaries: rows map, everything else equal |
+| C06 | relational (layout) | blank lines, comment lines, two of them, three-line =begin/=end blocks at safe boundaries, final newline dropped/doubled, string literals widened: rows map, everything else equal |
 | C07-C09 | reference model | `typed.go`: 320 generated programs over the shipped and 4 generated configurations: literals, ternary unions, reassignment, array/hash literals (nested too), indexing, push/<< growth, calls (own, inherited, Object methods, keywords, overloads, union receivers, Untyped members, multi-line argument lists and blocks, calls nested in if/unless/while/elsif/blocks); model `cfgmodel.go` = documented meaning of .ti-config; C07 certain-fail rows need a diagnostic on the row the call starts on, C08 certain-ok rows need none, C09 probes compared as type sets (nested arrays as (depth, class) pairs) |
 | C10 | reference model | 300 programs, ~10k probes: if/unless/elsif/else nested to depth 3, `x.nil?`, `!x.nil?`, `x.is_a?(C)`, && chains over distinct and the same variable, unrelated statements and inner conditionals, also inside a method |
 | C11 | relational (independence) | insertion of independent fragments (must be diagnostics-free alone) before real statements of hosts; host rows map, host output equal |
@@ -224,7 +224,7 @@ golden expectations record exactly the defective output.
 Observations outside the 27 properties, not judged by any check: a method named
 like the spelling of an ivar changes the output; one-letter class names
 (`class A`) are treated as constants in qualified references (`A::B.new` is
-untyped); `=begin/=end` blocks are recognised by parity; a diamond of `include`s
+untyped); a diamond of `include`s
 costs 2^depth lookups (finite, can reach the 500 ms watchdog); `--hover` with
 preloaded files hovers the preload's row; a line starting with an operator
 binds to the previous statement's value.
